@@ -44,11 +44,17 @@ GFlush  == /\ Go /\ wpc = "idle"
               \/ FWrite /\ h' = h
               \/ FPublish /\ h' = h
               \/ FEnd /\ h' = Append(h, Rec("flush", NoOp))
+\* which call the harness makes at a compaction step: the strategy-driven cycle, a range compaction over all keys, or a
+\* range compaction over a sub-range [lo, hi] of the keys (bounds carried in op as [k |-> lo, v |-> hi])
+CompactCall == {IF r = 1 THEN <<"compact", NoOp>>
+                ELSE IF r = 2 THEN <<"compactrange", NoOp>>
+                ELSE <<"compactsub", <<[k |-> KeySeq[lo], v |-> KeySeq[hi]]>> >> :
+                   r \in {R(3)}, lo \in {R(Len(KeySeq))}, hi \in {R(Len(KeySeq))}}
 GCompact == /\ Go /\ wpc = "idle" /\ fpc = "idle" /\ Compact
-            /\ \E c \in {IF R(2) = 1 THEN "compact" ELSE "compactrange"} : h' = Append(h, Rec(c, NoOp))
+            /\ \E c \in CompactCall : h' = Append(h, Rec(c[1], c[2]))
 \* the strategy may also find nothing to do
 GCompactNop == /\ R(4) = 1 /\ Go /\ up /\ wpc = "idle" /\ fpc = "idle" /\ UNCHANGED vars
-               /\ \E c \in {IF R(2) = 1 THEN "compact" ELSE "compactrange"} : h' = Append(h, Rec(c, NoOp))
+               /\ \E c \in CompactCall : h' = Append(h, Rec(c[1], c[2]))
 GClose  == R(3) = 1 /\ Go /\ Close /\ h' = h
 GRetire == AllowRetire /\ Go /\ Retire /\ h' = Append(h, [a |-> "retire", op |-> NoOp, st |-> StateOf(Abs), seq |-> lastSeq])
 GReopen == Go /\ Recover /\ h' = Append(h, Rec("reopen", NoOp))
